@@ -11,6 +11,7 @@ import (
 	"os"
 
 	_ "verif/mc/internal/checks"
+	"verif/mc/internal/drv"
 	"verif/mc/internal/run"
 )
 
@@ -21,6 +22,7 @@ func main() {
 	}
 	switch os.Args[1] {
 	case "worker":
+		drv.SilenceStdout()
 		os.Exit(run.WorkerMain(os.Args[2:]))
 	case "run":
 		tier := "quick"
